@@ -124,6 +124,11 @@ def label_vector_cases(ctx, vec):
     spec = 'c05.spec_reindex %s %s' % (ev, impl[3:]) if impl.startswith('ok ') else None
     out.append(Case(('reindex', ev), {'entry': 'reindex_labels'}, 'c05.reindex ' + ev, impl, spec, nontriv, desc,
                     canon='labels_sorted'))
+    # contract of np.argsort on the key reindex_labels hands it (ties, and the unstable sort beyond 16 entries)
+    if vec:
+        _, cnt = np.unique(arr, return_counts=True)
+        out.append(Case(('argsort', ev), {'entry': 'np.argsort', 'output': 'contract:IsArgsort'}, None, None,
+                        'c05.contract_argsort %s %s' % (enc_list(-cnt), enc_list(np.argsort(-cnt))), nontriv, desc))
     # np.unique (external; the model's reading of it)
     def fu():
         u, i, c = np.unique(arr, return_inverse=True, return_counts=True)
@@ -285,7 +290,15 @@ def louvain_cases(ctx, cls_name, b, params, force_bipartite):
     out.append(Case(key0 + ('pipeline',), dict(sig0, output='pipeline'), run, impl, spec, nontriv, desc,
                     canon='fitted_sorted' if est.sort_clusters else None))
     ctx.count('levels:%d' % len(rec.levels))
+    for t, lv in enumerate(rec.levels):
+        if len(lv[1]) != len(lv[0]):
+            ctx.spec_fail(dict(sig0, output='contract:KernelLen'), desc, {'level': t, 'in': len(lv[0]), 'out': len(lv[1])})
     if cls_name == 'Leiden':
+        # contract of the refinement kernel assumed by `leiden_fit_valid`
+        for t in range(len(rec.levels)):
+            out.append(Case(key0 + ('within', t), dict(sig0, output='contract:LeidenContract.within'), None, None,
+                            'c05.contract_leiden %s %s' % (enc_list(rec.levels[t][1]), enc_list(rec.refined[t])),
+                            True, desc))
         # labels handed to the next round = coarse label of every refined cluster
         for t in range(1, len(rec.levels)):
             _, lab_prev = np.unique(rec.levels[t - 1][1], return_inverse=True)
